@@ -2,7 +2,8 @@
 
     Proved here (unbounded, over every input of the executable models Req/*.v, which transcribe the code
     after the fix commits listed in KNOWN_FINDINGS.txt, every crash site explicit as [MPanic site]):
-      URL paths     node/find.go + node/path_slice.go + meta/find.go   [find_path]
+      URL paths     node/find.go + node/path_slice.go + meta/find.go   [find_path; find_rel: Find on a selection
+                    below the root, leading "../" steps and a "?query" part cut after them]
       JSON sources  nodeutil/json_rdr.go driven by node/edit.go        [read_doc]
       selectors     node/path_matcher.go match                         [path_matches]
       XPath text    xpath/lexer.go + grammar of xpath/parser.y         [xpath_parse]
@@ -33,6 +34,28 @@ Theorem C13_key_on_nonlist_is_error : forall modname r cur seg a b tgt,
   exists n g c k kids, tgt = NSk (SkList n g c k kids).
 Proof. exact keyed_segment_resolves_to_list. Qed.
 Print Assumptions C13_key_on_nonlist_is_error.
+
+(** Find on a selection below the root: any number of leading "../" steps, any "?query" part *)
+Theorem C13_find_rel_total : forall w names row path, is_panic (find_rel false w names row path) = false.
+Proof. exact find_rel_total. Qed.
+Print Assumptions C13_find_rel_total.
+
+(** the query is cut where it starts in what the "../" steps leave of the path: it never changes the
+    verdict of the path in front of it, except that a normal result may become an error *)
+Theorem C13_find_rel_query_cut : forall w names row p q, existsb (Byte.eqb x3f) p = false ->
+  find_rel false w names row (p ++ x3f :: q) = with_query (find_rel false w names row p).
+Proof. exact find_rel_query_cut. Qed.
+Print Assumptions C13_find_rel_query_cut.
+
+Example C13_find_rel_demo :
+  find_rel false demo_world [[x63]] false [x2e;x2e;x2f;x74;x6f;x70;x3f] = MOkOrErr /\
+  find_rel false demo_world [[x63]] false [x2e;x2e;x2f;x74;x6f;x70;x3f;x61;x3d;x31] = MOkOrErr /\
+  find_rel false demo_world [[x63]] false [x2e;x2e;x2f;x2e;x2e;x2f;x74;x6f;x70] = MErr /\
+  find_rel false demo_world [[x63]] false [x2e;x2e;x2f;x63;x3d;x31;x3f;x61] = MErr /\
+  find_rel false demo_world [[x63]] false [x7a;x3f] = MOkOrErr /\
+  find_rel false demo_world [[x63]] false [x2e;x2e;x2f;x6e;x6f;x73;x75;x63;x68;x3f;x64;x65;x70;x74;x68;x3d;x31] = MErr.
+Proof. exact find_rel_demo. Qed.
+Print Assumptions C13_find_rel_demo.
 
 Example C13_find_before_fix_panics :
   find_path true demo_world [x63;x3d;x31] = MPanic 2 /\ find_path true demo_world [x74;x6f;x70;x2f;x78] = MPanic 1.
